@@ -26,9 +26,6 @@ func Exportable(t sema.Type) bool {
 		switch x := x.(type) {
 		case *sema.FunctionType:
 			return x.Arity != nil || len(x.TypeParameters) > 0 || x.IsConstructor
-		case *sema.ReferenceType:
-			_, m := x.Authorization.(*sema.EntitlementMapAccess)
-			return m
 		}
 		return false
 	})
